@@ -74,7 +74,7 @@ static void w_setup(int cfg, int thorough)
     for (p = 0; p < NPOS; p++) for (c = 0; c < NCNT; c++) { w_ops[w_nops++] = OP(O_ERASE, p, c, 0); w_ops[w_nops++] = OP(O_SUBSTR, p, c, 0); }
     for (c = 0; c < NCNT; c++) { w_ops[w_nops++] = OP(O_RESIZE, 0, c, 0); w_ops[w_nops++] = OP(O_RESERVE, 0, c, 0); }
     w_ops[w_nops++] = OP(O_RESIZE, 0, 100, 0); w_ops[w_nops++] = OP(O_RESIZE, 0, 101, 0);                 /* size+1, 3 */
-    w_ops[w_nops++] = OP(O_SWAP, 0, 0, 0); w_ops[w_nops++] = OP(O_CLEAR, 0, 0, 0);
+    w_ops[w_nops++] = OP(O_SWAP, 0, 0, 0); w_ops[w_nops++] = OP(O_SWAP, 1, 0, 0); w_ops[w_nops++] = OP(O_CLEAR, 0, 0, 0);
     w_ops[w_nops++] = OP(O_B_SET, 6, 0, 0); w_ops[w_nops++] = OP(O_B_SET, 2, 0, 0); w_ops[w_nops++] = OP(O_B_CLEAR, 0, 0, 0); w_ops[w_nops++] = OP(O_B_RESIZE1, 0, 0, 0); w_ops[w_nops++] = OP(O_B_ERASEALL, 0, 0, 0);
 }
 static const char *w_config_desc(void) { return cfgdesc; }
@@ -205,6 +205,7 @@ static void w_apply(mc_op_t o)
     }
     case O_SWAP: {
         CH t[MAXL + 2]; size_t tn = M[0].n;
+        if (OA(o) == 1) { SHIM_CALL(ab, SF(swap)(&S[0], &S[0])); break; }       /* a string swapped with itself */
         SHIM_CALL(ab, SF(swap)(&S[0], &S[1]));
         memcpy(t, M[0].c, sizeof t); memcpy(M[0].c, M[1].c, sizeof t); memcpy(M[1].c, t, sizeof t); M[0].n = M[1].n; M[1].n = tn;
         break;
@@ -334,7 +335,7 @@ static void w_opname(mc_op_t o, char *b, size_t n)
     case O_SUBSTR: snprintf(b, n, "substr(A,pos=%s,n=%s,->B)", posname[OA(o)], cntname[OB(o)]); break;
     case O_RESIZE: snprintf(b, n, "resize(A,%s)", OB(o) == 100 ? "size+1" : OB(o) == 101 ? "3" : cntname[OB(o)]); break;
     case O_RESERVE: snprintf(b, n, "reserve(A,%s)", cntname[OB(o)]); break;
-    case O_SWAP: snprintf(b, n, "swap(A,B)"); break;
+    case O_SWAP: snprintf(b, n, OA(o) ? "swap(A,A)" : "swap(A,B)"); break;
     case O_CLEAR: snprintf(b, n, "clear(A)"); break;
     case O_B_SET: snprintf(b, n, "set_str(B,%s)", litname[OA(o)]); break;
     case O_B_CLEAR: snprintf(b, n, "clear(B)"); break;
